@@ -287,7 +287,10 @@ func (s genSpec) ops(st *genState) (out []opx) {
 			if s.rich {
 				out = append(out, st.txn([]model.Act{{Op: "delall"}}, false, ""))
 				out = append(out, st.txn([]model.Act{{Op: "delall"}, {Op: "insert", W: full}}, true, ""))
-				out = append(out, st.txn([]model.Act{{Op: "put", Off: r, W: []model.Write{M("s", S("x")), W("s", S("a"))}}}, false, varlen))
+				if s.replica {
+					// (only where the recorded variable-length-swap finding is listed: C06)
+					out = append(out, st.txn([]model.Act{{Op: "put", Off: r, W: []model.Write{M("s", S("x")), W("s", S("a"))}}}, false, varlen))
+				}
 				out = append(out, st.txn([]model.Act{{Op: "del", Off: r}, {Op: "insert", W: []model.Write{M("n", V(5))}}}, false, ""))
 			}
 			if hasHi && hi != r {
